@@ -140,6 +140,13 @@ def gen_opt(rng, idx):
             lo = rng.choice([None, Fraction(rng.randint(-12, 0), 2)])
             hi = rng.choice([None, Fraction(rng.randint(0, 12), 2)])
             spec["below_bounds"][v["name"]] = [None if lo is None else str(lo), None if hi is None else str(hi)]
+    # a declared output that is an alias of a control (own random stream): exported next to the control itself
+    import random
+    r2 = random.Random(json.dumps(spec, sort_keys=True, default=str))
+    ctl = [u["name"] for u in spec["inputs"] if u["type"] == "Real" and not u.get("fixed")]
+    if ctl and (r2.random() < 0.4 or idx < 2):
+        u = r2.choice(ctl)
+        spec["out_alias"] = ["out_" + u, u, r2.choice([1, -1])]
     return spec
 
 
@@ -207,6 +214,8 @@ def model_text(spec):
         lines.append("  %s%s %s%s;" % (pre, v["type"], v["name"], attrs(v)))
     if spec.get("alias"):
         lines.append("  Real %s;" % spec["alias"][0])
+    if spec.get("out_alias"):
+        lines.append("  output Real %s;" % spec["out_alias"][0])
     for v in spec["inputs"]:
         lines.append("  input %s %s%s;" % (v["type"], v["name"], attrs(v)))
     lines.append("equation")
@@ -214,6 +223,8 @@ def model_text(spec):
         lines.append("  %s = %s;" % (mo.ast_mo(lhs), mo.ast_mo(rhs)))
     if spec.get("alias"):
         lines.append("  %s = -%s;" % tuple(spec["alias"]))
+    if spec.get("out_alias"):
+        lines.append("  %s = %s%s;" % (spec["out_alias"][0], "-" if spec["out_alias"][2] < 0 else "", spec["out_alias"][1]))
     lines.append("end %s;" % spec["name"])
     return "\n".join(lines) + "\n"
 
@@ -526,6 +537,8 @@ def compare_opt(ctx, spec, obs, vals):
             if spec.get("alias") and spec["alias"][1] == nm:
                 if not same(obs["alias_nominal"], nom) or obs["alias_discrete"] != discrete:
                     bad.append(("nominal/alias", spec["alias"][0], obs["alias_nominal"], str(nom)))
+    if spec.get("out_alias"):
+        expected_outputs.append(spec["out_alias"][0])
     if obs["outputs"] != expected_outputs + expected_controls and sorted(obs["outputs"]) != sorted(expected_outputs + expected_controls):
         bad.append(("outputs", "", obs["outputs"], expected_outputs + expected_controls))
     return bad
@@ -674,6 +687,7 @@ def member_cases(ctx):
         s["equations"] = [[["v", "der(%s)" % st["name"]], ["-", ["v", s["inputs"][0]["name"]], ["v", st["name"]]]] for st in s["states"]] + \
                          [[["v", a["name"]], ["+", ["v", s["states"][0]["name"]], ["c", str(k + 1)]]] for k, a in enumerate(s["algebraics"])]
         s.pop("alias", None)
+        s.pop("out_alias", None)
         pars = [p["name"] for p in s["parameters"]]
         # make sure a fixed and a free start depend on a parameter
         s["states"][0].update({"start": ["*", ["c", "3/2"], ["v", pars[0]]], "fixed": True})
